@@ -3,9 +3,16 @@
    src/model_selection/{kfold,mod}.rs and `take` of src/linalg/mod.rs.
    `indices` is the index vector after the (optional) shuffle: theorems hold for EVERY rearrangement
    of 0..n-1, the unshuffled case is `indices = seq 0 n`.  `mem i l` is membership as a boolean.
-   The estimator (`fit`, `predict`, `score`) is universally quantified. *)
+   The estimator (`fit`, `predict`, `score`) is universally quantified.
+   The binary32 size theorems (C16_tts_size_within_n, C16_tts_returns_below_2p24,
+   C16_tts_size_vs_exact_product; proofs in C16/ProofsF32Bound.v) speak about real numbers:
+   `BinarySingleNaN.B2R` is Flocq's real value of a binary32 number, `Raux.Zfloor` / `Raux.Zceil`
+   Flocq's integer floor / ceiling of a real, `IZR` the injection of Z into R. *)
 From Coq Require Import List Arith Bool Permutation ZArith.
-From SC Require Import C16.Model C16.F32 C16.Proofs C16.ProofsTTS C16.ProofsCV C16.ProofsF32 C16.ProofsExt.
+From Coq Require Import Reals.
+From Flocq Require Core IEEE754.BinarySingleNaN.
+From SC Require Import C16.Model C16.F32 C16.Proofs C16.ProofsTTS C16.ProofsCV C16.ProofsF32 C16.ProofsExt
+  C16.ProofsF32Bound.
 Import ListNotations.
 
 (* k-fold, every n, every k >= 2, every permutation: exactly k (train, test) pairs; the test sets
@@ -93,13 +100,46 @@ Theorem C16_tts_size_overshoot_witness :
     (Z.of_N n < n_test_f32_Z (Z.of_N n) (f32_of_bits bits))%Z.
 Proof. exact tts_size_overshoot_witness. Qed.
 
-(* NOT PROVED (extension): below 2^24 rows the overshoot cannot happen.  Needs Flocq's
-   Bmult_correct / binary_normalize_correct / Btrunc_correct plus monotonicity of rounding
-   (n exactly representable, n*ts <= n ==> round(n*ts) <= n); checked per run by the
-   correspondence group tts_size_f32 and by the search, not by a theorem. *)
-Definition C16_tts_size_within_n_full_statement : Prop :=
-  forall (n : nat) (bits : Z), (Z.of_nat n <= 2 ^ 24)%Z ->
+(* Below 2^24 rows the overshoot cannot happen: for every n <= 2^24 (n as f32 is then exact) and
+   EVERY bit pattern of test_size that passes the range test (including NaN, which passes both
+   comparisons and yields size 0) the single-precision size is at most n.  Proved from Flocq's
+   specification of binary32 (binary_normalize_correct, Bmult_correct, Btrunc_correct, Bleb/Bltb_correct,
+   monotonicity of rounding, integers up to 2^24 are in the format) — no enumeration. *)
+Theorem C16_tts_size_within_n : forall (n : nat) (bits : Z), (Z.of_nat n <= 2 ^ 24)%Z ->
     ts_ok_f32 (f32_of_bits bits) = true -> n_test_f32 n (f32_of_bits bits) <= n.
+Proof. exact tts_size_within_n. Qed.
+
+(* Consequently, up to 2^24 rows the binary32 model of train_test_split returns (never None, i.e.
+   the implementation's `indices[n_test..n]` start > end panic is impossible) exactly when x and y
+   have the same number of rows, test_size passes the range test and trunc((n as f32)*test_size) >= 1:
+   the known finding tts-size-overshoot-above-2p24 can only occur above 2^24 rows. *)
+Theorem C16_tts_returns_below_2p24 : forall {R T} (x : list R) (y : list T) bits indices,
+  Permutation indices (seq 0 (length y)) -> (Z.of_nat (length y) <= 2 ^ 24)%Z ->
+  ((exists r, train_test_split_f32 x y bits indices = Some r) <->
+   (length x = length y /\ ts_ok_f32 (f32_of_bits bits) = true /\
+    1 <= n_test_f32 (length y) (f32_of_bits bits))).
+Proof. intros R T. exact (@tts_f32_returns_iff R T). Qed.
+
+(* The single-precision size against the EXACT real product p = n * test_size (B2R = the real value
+   of the binary32 number; 0 for NaN), n <= 2^24, every accepted bit pattern:
+     floor(p) <= n_test <= ceil(p)
+   so the size is the mathematically intended floor(n*test_size) or that plus one, it is exact
+   whenever p is an integer, and it can be floor(p)+1 only if p lies within a relative 2^-24 below
+   that integer, (n_test - p) * 2^24 <= n_test (the binary32 product was rounded up to it). *)
+Theorem C16_tts_size_vs_exact_product : forall (n : nat) (bits : Z), (Z.of_nat n <= 2 ^ 24)%Z ->
+  ts_ok_f32 (f32_of_bits bits) = true ->
+  let p := (IZR (Z.of_nat n) * BinarySingleNaN.B2R (f32_of_bits bits))%R in
+  let nt := Z.of_nat (n_test_f32 n (f32_of_bits bits)) in
+  (Raux.Zfloor p <= nt <= Raux.Zceil p)%Z /\ ((IZR nt - p) * IZR (2 ^ 24) <= IZR nt)%R.
+Proof. exact tts_size_vs_exact_product. Qed.
+
+(* ... and the upper bound is attained (so "floor(n*test_size)" alone would be false):
+   n = 10, test_size = 0.7f32 = 0.699999988..., p = 6.99999988..., n_test = 7 = floor(p) + 1 *)
+Theorem C16_tts_size_rounds_up_witness :
+  exists (n : nat) (bits : Z), (Z.of_nat n <= 2 ^ 24)%Z /\ ts_ok_f32 (f32_of_bits bits) = true /\
+    Z.of_nat (n_test_f32 n (f32_of_bits bits)) =
+    (Raux.Zfloor (IZR (Z.of_nat n) * BinarySingleNaN.B2R (f32_of_bits bits))%R + 1)%Z.
+Proof. exact tts_size_rounds_up_witness. Qed.
 
 (* cross_val_predict, every estimator, every permutation: whenever it returns, the result has one
    entry per sample, and for every sample i there is exactly the fold (tr, te) whose test set holds
@@ -169,3 +209,26 @@ Example C16_cv_instance :
   cross_validate fit predict score 2 [2; 0; 3; 1; 4] [0; 1; 2; 3; 4] [10; 10; 10; 10; 10]
     = Some ([110; 95], [75; 140]).
 Proof. split; vm_compute; reflexivity. Qed.
+
+(* hypotheses of C16_tts_size_within_n / C16_tts_size_vs_exact_product at the boundary n = 2^24
+   (Z version of the size: a unary nat of that magnitude is not computable), test_size = 1.0 and
+   the largest binary32 below 1.0 *)
+Example C16_tts_size_boundary_instance :
+  (16777216 <= 2 ^ 24)%Z /\ ts_ok_f32 (f32_of_bits 0x3F800000) = true /\
+  n_test_f32_Z 16777216 (f32_of_bits 0x3F800000) = 16777216%Z /\
+  ts_ok_f32 (f32_of_bits 0x3F7FFFFF) = true /\
+  n_test_f32_Z 16777216 (f32_of_bits 0x3F7FFFFF) = 16777215%Z.
+Proof. repeat split; vm_compute; try reflexivity; discriminate. Qed.
+
+(* the right-hand side of C16_tts_returns_below_2p24 on the instance above *)
+Example C16_tts_returns_instance :
+  Permutation [4; 2; 0; 1; 3] (seq 0 (length [20; 21; 22; 23; 24])) /\
+  (Z.of_nat (length [20; 21; 22; 23; 24]) <= 2 ^ 24)%Z /\
+  length [10; 11; 12; 13; 14] = length [20; 21; 22; 23; 24] /\
+  ts_ok_f32 (f32_of_bits 0x3F000000) = true /\
+  1 <= n_test_f32 (length [20; 21; 22; 23; 24]) (f32_of_bits 0x3F000000).
+Proof.
+  split; [apply perm_check_sound; reflexivity|].
+  split; [vm_compute; discriminate|]. split; [reflexivity|]. split; vm_compute; [reflexivity|].
+  apply le_S, le_n.
+Qed.
